@@ -344,6 +344,17 @@ func branch(b *ssa.BasicBlock) (*ssa.BasicBlock, *ssa.BasicBlock, *ssa.BinOp) {
 	return nil, nil, nil
 }
 
+// isVarargsSlice reports if v is the slice the SSA builder creates to pass the variadic arguments of a call
+// (a slice of a freshly allocated array holding the arguments, hence never empty).
+func isVarargsSlice(v ssa.Value) bool {
+	sl, ok := v.(*ssa.Slice)
+	if !ok {
+		return false
+	}
+	alloc, ok := sl.X.(*ssa.Alloc)
+	return ok && alloc.Comment == "varargs"
+}
+
 // isBuiltinAppendCall reports if the call is a call to builtin append.
 func isBuiltinAppendCall(v *ssa.Call) bool {
 	// TODO: consider merge this and assertion.BuiltinAppend
@@ -420,9 +431,14 @@ func (t nilnessTable) nilnessOf(v ssa.Value) nilness {
 		if !isBuiltinAppendCall(v) {
 			break
 		}
-		// append(s, x) always returns a nonnil.
 		if len(v.Call.Args) > 1 {
-			return isnonnil
+			// append(s, x, y) passes the extra elements as a freshly built, non-empty slice: the result
+			// is always nonnil. append(s, t...) is nil when s is nil and t is empty, so it is known to
+			// be nonnil only if s is.
+			if isVarargsSlice(v.Call.Args[1]) || t.nilnessOf(v.Call.Args[0]) == isnonnil {
+				return isnonnil
+			}
+			break
 		}
 		// append(s) depends on the nilability of s.
 		return t.nilnessOf(v.Call.Args[0])
